@@ -16,10 +16,9 @@ def gen_family(rng, n_classes=None, kinds=None, n_variants=None, rich=False):
     """classes + several config variants (same pipeline, parameter values equal or different at random places,
     mounted under different namespaces or none)"""
     modname = gen.fresh_modname()
-    if kinds is None and rng.random() < 0.5:
-        kinds = [k for k in gen.KINDS_P if k not in ('dir', 'continues')]
+    nodir = kinds is None and rng.random() < 0.5
     classes, pfile = gen.gen_pipeline(rng, n_classes=n_classes or rng.randint(2, 7), alphabet=gen.SAFE, keys=gen.SAFE,
-                                      kinds=kinds, modname=modname, by_name=0.3, optional=0.1, maxdepth=2)
+                                      kinds=kinds, avoid=('dir', 'continues') if nodir else (), modname=modname, by_name=0.3, optional=0.1, maxdepth=2)
     variants = []
     keys = [k for k in pfile if k != 'tasks']
     for v in range(n_variants or rng.randint(2, 4)):
@@ -35,7 +34,7 @@ def gen_family(rng, n_classes=None, kinds=None, n_variants=None, rich=False):
         v['context'] = None
         if rich and keys and rng.random() < 0.6:
             # the same file mounted a second time under another namespace, with per-namespace context values
-            ns2 = rng.choice(['z', 'n2', 'm'])
+            ns2 = rng.choice(['z', 'n2', 'm', 'train', 'n', 'na'])
             if ns2 != v['ns']:
                 uses.append('@cfg/' + v['file'] + f' as {ns2}')
             ctx = {}
@@ -242,6 +241,8 @@ def run_history(spec, variants, ops, root, multichain=False, data=None):
             chain, err = pl.build(b, data, main='main_' + v['file'], context=v.get('context'))
             r['error'] = err
             chains.append(chain); all_chains.append(chain); chain_variant[id(chain)] = v
+            if chain is not None:
+                r['wiring'] = wiring_check(spec, v, b, chain)
         elif op['op'] == 'restart':
             chains = [None] * len(chains)
         else:
@@ -323,8 +324,33 @@ def inspect_op(r, w, task, chain):
 def unexpected_oracle(ctx, case, hist):
     """an operation of the implementation raised although no run was told to fail"""
     for r in hist['rec']:
+        if r.get('wiring'):
+            ctx.fail('a chain wires a task to other inputs than its configuration declares (foreign upstream)', case,
+                     {'op': r['op'], 'wiring': r['wiring']})
         if r.get('unexpected') and not r['op'].get('failing'):
             ctx.fail('operation raised an unexpected exception', case, {'op': r['op'], 'exception': r['unexpected']})
+
+
+def wiring_check(spec, variant, b, chain):
+    """the chain's dependency edges against the executable reference builder (object level: shared objects are one node)"""
+    from taskchain.task import Task
+    from tcv import refbuild
+    from tcv.props.c08 import ref_build
+    ref = ref_build({**spec, 'main': 'main_' + variant['file'], 'context': variant.get('context')}, b)
+    if 'ok' not in ref:
+        return {'reference_error': ref.get('error')}
+    new = ref['ok']
+    rname, name_of = {}, {}
+    for n, t in new.items():
+        rname.setdefault(id(t), n)
+    for n, t in chain.tasks.items():
+        name_of.setdefault(id(t), n)
+    e_ref = {(rname[id(it)], rname[id(t)]) for n, t in new.items() for it in t.inputs.values() if isinstance(it, refbuild.T)}
+    e_impl = {(name_of[id(it)], name_of[id(t)]) for n, t in chain.tasks.items() for it in t.input_tasks.values() if isinstance(it, Task)}
+    if set(new) != set(chain.tasks) or e_ref != e_impl:
+        return {'missing_tasks': sorted(set(new) - set(chain.tasks)), 'extra_tasks': sorted(set(chain.tasks) - set(new)),
+                'missing_edges': sorted(e_ref - e_impl)[:5], 'extra_edges': sorted(e_impl - e_ref)[:5]}
+    return None
 
 
 def snapshot(chains):
@@ -402,6 +428,8 @@ def portable(hist, spec):
         if op['op'] == 'value':
             if r.get('raised'):
                 o.update(val=None, raised=True)
+            elif isinstance(r['value'], dict) and r['value'].get('t') == '__EMPTY__':
+                o.update(val='EMPTY', raised=False)          # an empty generated sequence carries no provenance term
             else:
                 o.update(val=term_portable(r['value']), raised=False)
         elif op['op'] == 'inspect' and 'has_data' in r:
@@ -453,7 +481,7 @@ def assemble(segments):
                  'st': {'forced': [x + off for x in o['st']['forced']], 'in_memory': [x + off for x in o['st']['in_memory']],
                         'stored': sorted(locs[tuple(l)] for l in o['st']['stored'] if tuple(l) in locs)}}
             if 'raised' in o:
-                g['raised'] = o['raised']; g['val'] = gterm(o['val']) if o['val'] is not None else None
+                g['raised'] = o['raised']; g['val'] = o['val'] if o['val'] in (None, 'EMPTY') else gterm(o['val'])
             if 'has_data' in o:
                 g['has_data'] = o['has_data']
             g['_seg'] = (off, off + o['n'])
@@ -470,7 +498,7 @@ def canon_model_out(mo, io):
                                     'in_memory': sorted(x for x in mo['st']['in_memory'] if lo <= x < hi),
                                     'stored': sorted(x for x in mo['st']['stored'] if x in io['_seglocs'])}}
     if 'raised' in mo:
-        o['val'] = mo['val']; o['raised'] = mo['raised']
+        o['val'] = 'EMPTY' if (io.get('val') == 'EMPTY' and mo['val'] is not None) else mo['val']; o['raised'] = mo['raised']
     elif 'has_data' in mo and 'has_data' in io:
         o['has_data'] = mo['has_data']
     return o
